@@ -84,6 +84,7 @@ type interpreter struct {
 	inited             map[*ssa.Package]bool
 	onceDone           map[*value]bool
 	syncMaps           map[*value]*omap
+	pools              map[*value]*[]value
 	built              map[*ssa.Package]bool
 	interned           []internEntry
 	idSeq              int
